@@ -83,7 +83,7 @@ case("LiftTrace", "NA mask misaligned", dict(lf, out=[{"na": True, "v": -1}, {"n
 # Render
 rn = {"k": "frame", "how": "to_string", "err": "", "pure": True, "empty": False,
       "in": {"nrow": 5, "cols": ["a", "b"], "maxRows": 2, "maxWidth": 20},
-      "obs": {"wellformed": True, "total": 5, "blocks": [{"lineW": [9, 9, 9, 9, 9], "names": ["a", "b"], "nlabels": 2, "dataRows": 2}]}}
+      "obs": {"wellformed": True, "total": 5, "stray": False, "blocks": [{"lineW": [9, 9, 9, 9, 9], "names": ["a", "b"], "nlabels": 2, "dataRows": 2}]}}
 case("RenderTrace", "rendering accepted", rn, "")
 r2 = copy.deepcopy(rn); r2["obs"]["total"] = -1
 case("RenderTrace", "total line missing", r2, "frame:total-row-count-not-stated")
@@ -91,6 +91,62 @@ r3 = copy.deepcopy(rn); r3["obs"]["blocks"][0]["lineW"][2] = 8
 case("RenderTrace", "rule narrower than header", r3, "frame:lines-of-a-block-differ-in-display-width")
 r4 = copy.deepcopy(rn); r4["pure"] = False
 case("RenderTrace", "object changed", r4, "render:object-changed-by:to_string")
+r5 = copy.deepcopy(rn); r5["obs"]["stray"] = True
+case("RenderTrace", "carriage return left inside a line", r5, "frame:a-line-boundary-character")
+
+
+def machine_cases():
+    """Histories recorded from the real classes (Store, LoDSM), then one observed field corrupted."""
+    import random
+    from props import c12, c17
+    out = []
+    # Store: write csv.gz, read back restricted through the alias
+    hist = [{"t": "write", "owner": "df", "fmt": "csv", "sep": ",", "header": True, "enc": "utf-8", "stem": "p", "suffix": ".gz", "c": 1, "ext": False},
+            {"t": "read", "owner": "df", "fmt": "csv", "sep": ",", "header": True, "enc": "utf-8", "stem": "p", "suffix": ".gz",
+             "cols": ["c", "a"], "alias": True, "cast": "", "expect": 1}]
+    tr = c12.run_behaviour(hist)
+    variants = [("write+restricted read accepted", tr, "")]
+    t2 = copy.deepcopy(tr); t2["steps"][0]["obs"]["magic"] = "none"
+    variants.append(("file not compressed", t2, "write:not-really-compressed"))
+    t3 = copy.deepcopy(tr); c = t3["steps"][1]["obs"]["frame"]["cell"]; c["a"], c["c"] = c["c"], c["a"]
+    variants.append(("values under each other's names", t3, "read:restricted-read-differs"))
+    t4 = copy.deepcopy(tr); t4["steps"][1]["obs"]["alias_same"] = False
+    variants.append(("alias differs", t4, "read:module-level-alias-differs"))
+    t5 = copy.deepcopy(tr); t5["steps"][1]["obs"]["frame"]["cell"]["a"][1] = -1
+    variants.append(("a value became missing", t5, "read:restricted-read-differs"))
+    ctx = core.Ctx("SELFTEST", "quick", 0)
+    bad = {(ti, st): cl for ti, st, cl in c12.validate(ctx, [v[1] for v in variants])}
+    for i, (name, _, exp) in enumerate(variants):
+        got = "; ".join(cl for (ti, st), cl in sorted(bad.items()) if ti == i)
+        out.append(("StoreTrace", name, got, exp))
+    # LoDSM: filter -> modify (editor) -> keys -> deepcopy -> poke
+    s = c17.Session([{"a": 0, "b": -1}, {"a": 1, "b": 1}], nested=True)
+    tr = {"init": {"items": [c17.to_abs_nested(x) for x in s.keep], "lists": [[1, 2]]}, "nested": True, "steps": []}
+    for e in ({"x": 1, "o": 0, "a": {"op": "filter", "p": {"f": "true"}}},
+              {"x": 2, "o": 0, "a": {"op": "modify", "k": "x", "g": {"f": "const", "v": 1}}},
+              {"x": 3, "o": 0, "a": {"op": "keys"}},
+              {"x": 3, "o": 0, "a": {"op": "deepcopy"}},
+              {"x": 4, "o": 0, "a": {"op": "poke", "i": 1, "v": 0}}):
+        e["obs"] = s.step(e)
+        tr["steps"].append(e)
+    variants = [("history accepted", tr, "")]
+    t2 = copy.deepcopy(tr); t2["steps"][1]["obs"]["lists"][0]["ob"] = False
+    variants.append(("ancestor not flagged obsolete", t2, "SM:must-report-obsolete-but-does-not"))
+    t3 = copy.deepcopy(tr); t3["steps"][2]["obs"]["ret"] = ["a", "b"]
+    variants.append(("keys() misses a key", t3, "SM:reader-result-not-a-function"))
+    t4 = copy.deepcopy(tr); t4["steps"][4]["obs"]["items"][1]["b"] = 0
+    variants.append(("poke into the copy seen in the original", t4, "SM:assignment-into-one-item-observable-through-an-item-of-another-heap"))
+    t5 = copy.deepcopy(tr); t5["steps"][0]["obs"]["items"][0]["a"] = 1
+    variants.append(("filter changed an item", t5, "SM:non-modifying-method-changed-an-item"))
+    t6 = copy.deepcopy(tr); t6["steps"][2]["obs"]["warn"] = 1
+    variants.append(("spurious warning", t6, "SM:warning-not-printed-exactly-once"))
+    ctx = core.Ctx("SELFTEST", "quick", 0)
+    bad = {}
+    for ti, st, cl in c17.ctx_validate_traces(ctx, [v[1] for v in variants]):
+        bad.setdefault(ti, []).append(cl)
+    for i, (name, _, exp) in enumerate(variants):
+        out.append(("LoDSMTrace", name, (bad.get(i) or [""])[0], exp))
+    return out
 
 
 def main():
@@ -106,7 +162,12 @@ def main():
             good = (got == "" and exp == "") or (exp != "" and got.startswith(exp))
             print("%-16s %-40s %s  (%s)" % (m, name, "ok" if good else "UNEXPECTED", got or "accepted"))
             failures += 0 if good else 1
-    print("selftest:", len(CASES), "cases,", failures, "unexpected")
+    extra = machine_cases()
+    for m, name, got, exp in extra:
+        good = (got == "" and exp == "") or (exp != "" and got.startswith(exp))
+        print("%-16s %-40s %s  (%s)" % (m, name, "ok" if good else "UNEXPECTED", got or "accepted"))
+        failures += 0 if good else 1
+    print("selftest:", len(CASES) + len(extra), "cases,", failures, "unexpected")
     return 1 if failures else 0
 
 
